@@ -277,9 +277,8 @@ fn convert_to_native_expr(node: &ASTNode) -> Result<Box<Expr>, QueryError> {
         ASTNode::Value(ValueWithSpan {
             value: ref literal, ..
         }) => Expr::Const(get_raw_val(literal)?),
-        ASTNode::Identifier(ref identifier) => {
-            Expr::ColName(strip_quotes(identifier.value.as_ref()))
-        }
+        // `value` is the identifier with its quotes already removed by the SQL parser
+        ASTNode::Identifier(ref identifier) => Expr::ColName(identifier.value.clone()),
         ASTNode::Nested(inner) => *convert_to_native_expr(inner)?,
         ASTNode::Function(f) => match format!("{}", f.name).to_uppercase().as_ref() {
             "TO_YEAR" => match &f.args {
